@@ -2,6 +2,7 @@ package main
 
 import (
 	"fmt"
+	"go/constant"
 	"go/token"
 	"go/types"
 	"sort"
@@ -615,6 +616,119 @@ func c13(r *Report) {
 		}
 	})
 
+	r.Guard("C13.R4", "the pingback expectation is met exactly by a request that agrees with every non-empty part", func() {
+		fn := w.Fn("pingback", "Verifier.ModifyRequest")
+		if fn == nil || fn.Blocks == nil {
+			r.Undecided("M/pingback.Verifier.ModifyRequest", "UNRESOLVED")
+			return
+		}
+		r.Touch(fn)
+		// leaves: `v.url.F != ""` (or a length test) and `v.url.F != u.F`, F one of the URL's parts
+		fieldOfLoad := func(v ssa.Value) string {
+			if ld, isLd := v.(*ssa.UnOp); isLd && ld.Op == token.MUL {
+				if fa, isFa := ld.X.(*ssa.FieldAddr); isFa {
+					return fieldObj(fa).Name()
+				}
+			}
+			return ""
+		}
+		classify := func(v ssa.Value) (part string, kind int, b *ssa.BinOp) { // kind 1 emptiness, 2 equality, 3 length
+			b, isB := v.(*ssa.BinOp)
+			if !isB {
+				return "", 0, nil
+			}
+			if fx, fy := fieldOfLoad(b.X), fieldOfLoad(b.Y); fx != "" && fx == fy {
+				return fx, 2, b
+			}
+			for _, pr := range [][2]ssa.Value{{b.X, b.Y}, {b.Y, b.X}} {
+				if f := fieldOfLoad(pr[0]); f != "" {
+					if k, isK := pr[1].(*ssa.Const); isK && k.Value != nil && k.Value.Kind() == constant.String && constant.StringVal(k.Value) == "" {
+						return f, 1, b
+					}
+				}
+			}
+			if c, isC := b.X.(*ssa.Call); isC {
+				if bi, isBi := c.Call.Value.(*ssa.Builtin); isBi && bi.Name() == "len" && len(c.Call.Args) == 1 {
+					if f := fieldOfLoad(c.Call.Args[0]); f != "" {
+						if _, isK := constInt(b.Y); isK {
+							return f, 3, b
+						}
+					}
+				}
+			}
+			return "", 0, nil
+		}
+		var first *ssa.BinOp
+		parts := map[string]bool{}
+		for _, in := range instrs(fn) {
+			if p, k, b := classify(asValue(in)); k != 0 {
+				parts[p] = true
+				if first == nil {
+					first = b
+				}
+			}
+		}
+		want := []string{"Scheme", "Host", "Path", "RawQuery"}
+		okParts := first != nil
+		for _, p := range want {
+			if !parts[p] {
+				okParts = false
+			}
+		}
+		r.Decide("table", "M/pingback.Verifier.ModifyRequest compares scheme, host, path and query", okParts, "all four parts tested", fmt.Sprintf("the parts compared are %v: a request that differs in an omitted part counts as the pingback", keys(parts)), fn.Pos())
+		if !okParts {
+			return
+		}
+		okTable, detail := true, ""
+		for m := 0; m < 256 && okTable; m++ {
+			empty := func(p string) bool { return m>>(2*indexOf(want, p))&1 == 1 }
+			equal := func(p string) bool { return m>>(2*indexOf(want, p)+1)&1 == 1 }
+			out, okD := decide(first.Block(), func(v ssa.Value) (bool, bool) {
+				p, k, b := classify(v)
+				if k == 0 || indexOf(want, p) < 0 {
+					return false, false
+				}
+				switch k {
+				case 1:
+					return (b.Op == token.EQL) == empty(p), b.Op == token.EQL || b.Op == token.NEQ
+				case 2:
+					// an empty expectation equals the request's part only if that is empty too: take it as unequal
+					return (b.Op == token.EQL) == equal(p), b.Op == token.EQL || b.Op == token.NEQ
+				default:
+					n := int64(3)
+					if empty(p) {
+						n = 0
+					}
+					kk, _ := constInt(b.Y)
+					return cmpHolds(b.Op, n, kk), true
+				}
+			})
+			if !okD || out == nil {
+				okTable, detail = false, "the decision could not be evaluated"
+				continue
+			}
+			met := false
+			for _, in := range out.Instrs {
+				if st, isSt := in.(*ssa.Store); isSt {
+					if fa, isFa := st.Addr.(*ssa.FieldAddr); isFa && fieldObj(fa).Name() == "err" && isNilConst(st.Val) {
+						met = true
+					}
+				}
+			}
+			wantMet := true
+			for _, p := range want {
+				if !empty(p) && !equal(p) {
+					wantMet = false
+				}
+			}
+			if met != wantMet {
+				okTable = false
+				detail = fmt.Sprintf("with empty=%v equal=%v (in the order %v) the expectation is %s", []bool{empty(want[0]), empty(want[1]), empty(want[2]), empty(want[3])}, []bool{equal(want[0]), equal(want[1]), equal(want[2]), equal(want[3])}, want, map[bool]string{true: "recorded as met although a non-empty part differs", false: "not recorded as met although every non-empty part agrees"}[met])
+			}
+		}
+		r.Decide("table", "M/pingback.Verifier.ModifyRequest: truth table of the match (4 parts x empty/equal)", okTable, "256 valuations: met iff every non-empty part agrees", detail+": the verifier reports a pingback that did not occur, or misses one that did", first.Pos())
+	})
+
 	r.Guard("C13.R4", "a verifier's recorded state is synchronised between traffic, queries and resets", func() {
 		for _, l := range leaves {
 			for _, f := range l.State {
@@ -877,4 +991,18 @@ func multiErrorAddAlwaysAppends(r *Report) {
 	}
 	p := g.PathTo([]ssa.Instruction{g.Entry()}, true, isAppendStore, isReturn)
 	r.Decide("path", "(*M.MultiError).Add records every error it is given", p == nil, "errs = append(errs, ...) lies on every path to the return", "Add can return without appending (a duplicate filter, a nil filter): two children failing with the same error value are reported as one, and a verification query loses failures", add.Pos())
+}
+
+func indexOf(xs []string, x string) int {
+	for i, y := range xs {
+		if y == x {
+			return i
+		}
+	}
+	return -1
+}
+
+func asValue(in ssa.Instruction) ssa.Value {
+	v, _ := in.(ssa.Value)
+	return v
 }
